@@ -40,6 +40,9 @@ GateCases(e) ==
             P(GateCaseS(e, [Base(e, n) EXCEPT ![i] = d], [[j \in 1..n |-> "one"] EXCEPT ![i] = k], "dtype_shape_" \o k))
       /\ \A k \in ShapeKinds : P(GateCaseS(e, Base(e, n), [j \in 1..n |-> k], "count_shape_" \o k))
       /\ \A i \in 1..n : i > e.min => P(GateCase(e, [Base(e, n) EXCEPT ![i] = "nil"], "nil_optional"))
+      \* two consecutive positions of one and the same element type (the harness also passes ONE tensor object at both): each position
+      \* is judged by its own constraint - a type that is legal at one of them need not be legal at the other
+      /\ \A i \in 2..n : \A d \in GateTypes \ {"int", "nil"} : P(GateCase(e, [Base(e, n) EXCEPT ![i - 1] = d, ![i] = d], "same_type_pair"))
       /\ \A i, j \in 1..n : (i > e.min /\ j > i) => P(GateCase(e, [Base(e, n) EXCEPT ![i] = "nil", ![j] = "nil"], "nil_optional"))
       \* an absent optional input combined with a perturbed element type at another position (before or after it)
       /\ \A i, j \in 1..n : (i > e.min /\ j # i) =>
